@@ -14,7 +14,7 @@ LEVEL_TEXT = ('Lean 4 theorems at ℂ/ℝ, stated over the C02 propagation model
               'the integer frequency coordinate; for any number of fields on the wavefront canvas, any output extent / mask box / '
               'propagation shape and any set of output samples inside one period (α = 1/K, 1/L, K, L ≥ canvas, K ≠ L allowed) the summed '
               'intensity is ≤ Σ|total input field|², with equality over the whole period; nested sample sets are monotone; intensity ≥ 0; a '
-              'tilted field keeps its energy over the displaced period; fftshift∘fft2(ortho)∘ifftshift equals the centred unitary dft2 for '
+              'tilted field, or several fields sharing one tilt, keep their energy over the displaced period; fftshift∘fft2(ortho)∘ifftshift equals the centred unitary dft2 for '
               'even and odd sizes, and — composed with C09 fft_eq_propagate_dft — the whole FFT propagator (grid shape, padding or scratch, crop; any number of '
               'fields, isotropic sampling) returns at most the input power and exactly it on the full grid; normalize_power (factor regenerated from util.py) '
               'yields power p at every input scale. The propagate_dft correspondence runs the C02 model itself (Gen.dftWindow, Gen.maskShape/Shift, dftAlpha) '
@@ -39,8 +39,8 @@ TRUSTED = ['np.fft.fft2(norm="ortho") is the unitary DFT with origin at index 0;
            'np.dot / np.exp / np.abs / np.sum as written in the model; Wavefront.intensity merges coincident output fields (C06)']
 UNPROVEN = ['"images to total p" for a normalised pupil is the composition normalize_power_power ∘ propagate_dft_energy through Plane.multiply '
             '(C07: |exp(iφ)| = 1 on the mask), which is not composed here; it is evaluated by the oracle',
-            'energy for several fields carrying different tilts (interference between differently displaced transforms) has no theorem; '
-            'the generator gives overlapping fields a common tilt and checks disjoint ones by the oracle',
+            'energy for several fields carrying *different* tilts (interference between differently displaced transforms) has no theorem; '
+            'the generator gives overlapping fields a common tilt (theorem common_tilt_period_energy) and checks disjoint ones by the oracle',
             'Wavefront.insert(out, weight) = out + weight·intensity is evaluated by the oracle only',
             'propagate_fft_energy needs isotropic dx·du (C09: the FFT propagator has one wavelength for two grids otherwise — known finding D9); '
             'the FFT correspondence model (fftPath on embedAll) is the hand model of Model/Energy.lean, not C09 propagateFft']
